@@ -411,6 +411,29 @@ def run_case(ns, mon, case):
         if xl._grad is None or not np.allclose(xl._grad, 3 * (6 * xl.data ** 2 + 6) + 1):
             bad("release:leaf-gradient-after-second-call", "leaf gradient after a second backward through a former root is wrong",
                 got=None if xl._grad is None else xl._grad.tolist())
+        # a leaf that is switched off (frozen) after the graph was built and before it is differentiated: the backward call completes and the
+        # other leaves get their gradients (whether the frozen leaf itself still receives one is not asserted: PyTorch delivers it, skipping it is
+        # just as defensible)
+        for opname, mk in (("linear", lambda a_, w_, b_: sg.linear(a_, w_, b_)), ("mul+add", lambda a_, w_, b_: (a_ @ w_.transpose(0, 1)) * 1.0 + b_),
+                           ("Linear layer", None)):
+            a_ = T(np.array([[1.0, 2.0, -1.0], [0.5, 0.0, 2.0]]), requires_grad=True)
+            if mk is None:
+                lay = ns.nn.Linear(3, 2)
+                w_, b_ = lay.weight, lay.bias
+                o_ = lay(a_)
+            else:
+                w_ = T(np.array([[1.0, -1.0, 0.5], [2.0, 0.0, 1.0]]), requires_grad=True)
+                b_ = T(np.array([0.1, -0.2]), requires_grad=True)
+                o_ = mk(a_, w_, b_)
+            w_.requires_grad = False
+            try:
+                o_.sum().backward()
+                counters["frozen_after_forward_sweeps"] = counters.get("frozen_after_forward_sweeps", 0) + 1
+                wd_ = np.asarray(w_.data, dtype=np.float64)
+                if a_._grad is None or not np.allclose(a_._grad, np.broadcast_to(wd_.sum(0), a_.shape)) or b_._grad is None or not np.allclose(b_._grad, 2.0):
+                    bad("release:leaf-gradient:operand-frozen-after-forward", f"{opname}: after an operand was frozen between forward and backward the other leaves did not get their gradients")
+            except Exception as e:
+                bad("mode:backward-raises:operand-frozen-after-forward", f"{opname}: backward raised {type(e).__name__} because an operand was frozen between forward and backward", error=str(e)[:120])
         if model["retain"]:
             if h1._grad is None or h2._grad is None:
                 bad("release:retain_grads-context-ignored", "intermediate gradients of a graph built and differentiated under retain_grads were released")
